@@ -6,6 +6,8 @@
 use anyhow::{anyhow, bail, Result};
 use evdev::{InputEvent, InputEventKind, RelativeAxisType};
 use log::info;
+#[cfg(kanata_verif)]
+use crate::verif_seam::{self as std, instant, parking_lot};
 use parking_lot::Mutex;
 use std::convert::TryFrom;
 use std::sync::mpsc::SyncSender as Sender;
